@@ -194,3 +194,55 @@ V('c09-fix-setitem', 'C09', 'hl7apy/core.py',
   "        child_name = self.list[index].name\n        self.set(child_name, value, index)",
   "        old = self.list[index]\n        self.set(old.name, value, self.indexes[old.name].index(old))",
   expect='fixed:C09-K')
+
+# ---------------------------------------------------------------- C11
+V('c11-proxy-read-attaches', 'C11', 'hl7apy/core.py',
+  "                element = self.element_list.create_element(self.element_name, traversal_parent=True)\n        return getattr(element, name)",
+  "                element = self.element_list.create_element(self.element_name, traversal_parent=False)\n        return getattr(element, name)",
+  rule='C11-L1')
+V('c11-proxy-read-default-flag', 'C11', 'hl7apy/core.py',
+  "                element = self.element_list.create_element(self.element_name, traversal_parent=True)\n        return getattr(element, name)",
+  "                element = self.element_list.create_element(self.element_name)\n        return getattr(element, name)",
+  rule='C11-L1')
+V('c11-create-element-always-parent', 'C11', 'hl7apy/core.py',
+  "            if not traversal_parent:\n                kwargs['parent'] = self.element\n            else:\n                kwargs['traversal_parent'] = self.element",
+  "            kwargs['parent'] = self.element\n            if traversal_parent:\n                kwargs['traversal_parent'] = self.element",
+  rule='C11-L2')
+V('c11-lookup-creates', 'C11', 'hl7apy/core.py',
+  "            child_name = self._find_name(name)\n            if child_name is not None:\n                try:\n                    return self.proxies[child_name]",
+  "            child_name = self._find_name(name)\n            if child_name is not None:\n                self.create_element(child_name)\n                try:\n                    return self.proxies[child_name]",
+  rule='C11-L1')
+V('c11-append-unconditional-list', 'C11', 'hl7apy/core.py',
+  "            if self.element == child.parent:\n                self._remove_from_traversal_index(child)\n                self.list.append(child)",
+  "            self.list.append(child)\n            if self.element == child.parent:\n                self._remove_from_traversal_index(child)",
+  rule='C11-L4')
+V('c11-shadow-branch-indexes', 'C11', 'hl7apy/core.py',
+  "            elif self.element == child.traversal_parent:\n                try:\n                    self.traversal_indexes[child.name].append(child)\n                except KeyError:\n                    self.traversal_indexes[child.name] = [child]",
+  "            elif self.element == child.traversal_parent:\n                try:\n                    self.indexes[child.name].append(child)\n                except KeyError:\n                    self.indexes[child.name] = [child]",
+  rule='C11-L4')
+V('c11-encoder-reads-shadow', 'C11', 'hl7apy/core.py',
+  "        children = [self.indexes.get(k, None) for k in ordered_keys]",
+  "        children = [self.indexes.get(k, None) or self.traversal_indexes.get(k, None) for k in ordered_keys]",
+  rule='C11-L5')
+V('c11-getter-promotes', 'C11', 'hl7apy/core.py',
+  "    def _get_value(self):\n        return self.to_er7()\n\n    value = property(_get_value, _set_value)\n\n    @property\n    def classname",
+  "    def _get_value(self):\n        self.set_parent_to_traversal()\n        return self.to_er7()\n\n    value = property(_get_value, _set_value)\n\n    @property\n    def classname",
+  rule='C11-L6')
+V('c11-proxy-promotes-any-attr', 'C11', 'hl7apy/core.py',
+  "            if name == 'value':\n                element.set_parent_to_traversal()", "            element.set_parent_to_traversal()",
+  rule='C11-L6')
+V('c11-subcomponent-promotes-on-none', 'C11', 'hl7apy/core.py',
+  "        if value is None:\n            self._value = None\n        else:",
+  "        if value is None:\n            self._value = None\n            self.set_parent_to_traversal()\n        else:", rule='C11-L6')
+V('c11-set-parent-adds-none', 'C11', 'hl7apy/core.py',
+  "        self._traversal_parent = parent\n        if parent is not None:\n            parent.add(self)",
+  "        self._traversal_parent = parent\n        if parent is not None or self._parent is not None:\n            (parent or self._parent).add(self)",
+  rule='C11-L3')
+V('c11-getattr-caches-on-element', 'C11', 'hl7apy/core.py',
+  "        if hasattr(self, 'children') and name not in self.cls_attrs:\n            return self.children.get(name)",
+  "        if hasattr(self, 'children') and name not in self.cls_attrs:\n            self.repetitions[name] = (0, -1)\n            return self.children.get(name)",
+  rule='C11-L7')
+V('c11-to-er7-normalises', 'C11', 'hl7apy/core.py',
+  "        separator = encoding_chars.get('FIELD')\n        repetition = encoding_chars.get('REPETITION')",
+  "        separator = encoding_chars.get('FIELD')\n        repetition = encoding_chars.get('REPETITION')\n        self._last_child_index = max(self._last_child_index, self._last_allowed_child_index)",
+  rule='C11-L7')
